@@ -198,11 +198,11 @@ Qed.
 Lemma slash_cons a s op eh prop s' : slash s op eh prop = Some s' -> cons a s' = cons a s /\ stk a s' = stk a s.
 Proof.
   unfold slash. destruct ((prop <? 0) || (prop >? P)); [discriminate|].
-  destruct (if eh <? height s then slash_records op eh prop (ur s) else (ur s, [])) as [u' ev1] eqn:E1.
+  destruct (if eh <=? height s then slash_records op eh prop (ur s) else (ur s, [])) as [u' ev1] eqn:E1.
   destruct (slash_pools op prop (oa s) (dg s) (sl s)) as [[[o' d'] l'] ev2] eqn:E2.
   intro H. inversion H; subst; clear H.
   assert (value_rec a u' = value_rec a (ur s) + net a ev1 /\ stake a ev1 = 0) as [A1 A2].
-  { destruct (eh <? height s); [eapply slash_records_cons; eauto|].
+  { destruct (eh <=? height s); [eapply slash_records_cons; eauto|].
     inversion E1; subst. unfold net, stake; simpl. split; lia. }
   apply (slash_pools_cons a) in E2. destruct E2 as [B1 B2].
   unfold cons, stk, value, value_d, dump_of. simpl. rewrite !net_app, !stake_app. split; lia.
@@ -247,7 +247,7 @@ Proof.
     destruct (delegate s staker asset operator x) as [s'|] eqn:E; simpl; [|auto]. exact (delegate_cons a s staker asset operator x s' W1 W2 E).
   - rewrite !andb_true_iff in Wf. destruct Wf as [[W1 W2] _].
     destruct (undelegate s staker asset operator x nonce tx) as [[s' r]|] eqn:E; simpl; [|auto].
-    destruct (hook_panics s operator); simpl; [auto|]. exact (undelegate_cons a s staker asset operator x nonce tx s' r W1 W2 E).
+    exact (undelegate_cons a s staker asset operator x nonce tx s' r W1 W2 E).
   - unfold rec_wf in Wf. rewrite !andb_true_iff in Wf. destruct Wf as [[[W1 W2] _] _]. apply genesis_load_cons; assumption.
   - destruct prop as [p|]; simpl; [|auto].
     destruct (slash s operator eh p) as [s'|] eqn:E; simpl; [|auto]. exact (slash_cons a s operator eh p s' E).
@@ -255,6 +255,7 @@ Proof.
   - apply hold_dec_cons.
   - destruct (end_block_idx (fun s' => cons a s' = cons a s /\ stk a s' = stk a s)) with (s := s) as (_ & Q & _); auto.
     intros s0 r I0 G [C S]. destruct (process_cons a s0 r I0 G) as [-> ->]. auto.
+  - discriminate.
 Qed.
 
 (* induction over histories *)
